@@ -10,15 +10,22 @@
 (***************************************************************************)
 EXTENDS MRContract, Json
 
-VARIABLE sc
+CONSTANT Orders   \* subset of {"cancel-before-write", "ctx-before-write"}: directed scenarios to add
 
-GInit == IsScenario(sc)
-GNext == UNCHANGED sc
-GSpec == GInit /\ [][GNext]_sc
+VARIABLES sc, ord  \* ord = "": plain scenario; else the ordering the driver establishes before the reducer writes
 
-CaseOf(s) == [api |-> s.api, n |-> s.n, workers |-> s.workers, mb |-> s.mb, rstop |-> s.rstop, rw |-> s.rw,
+GInit == \/ IsScenario(sc) /\ ord = ""
+         \/ \E o \in Orders, a \in {"MapReduce", "MapReduceChan"}, w \in 1..2,
+               b1 \in {"cancelE", "cancelNil", "w0", "w1"}, b2 \in {"w0", "w1"}, c \in {"bg", "during"} :
+              /\ sc = [api |-> a, n |-> 2, workers |-> w, mb |-> <<b1, b2>>, rstop |-> 0, rw |-> 1, rend |-> "ret",
+                        genk |-> -1, ctx |-> c]
+              /\ ord = o /\ Directed(sc, o)
+GNext == UNCHANGED <<sc, ord>>
+GSpec == GInit /\ [][GNext]_<<sc, ord>>
+
+CaseOf(s) == [order |-> ord, api |-> s.api, n |-> s.n, workers |-> s.workers, mb |-> s.mb, rstop |-> s.rstop, rw |-> s.rw,
               rend |-> s.rend, genk |-> s.genk, ctx |-> s.ctx,
-              allowed |-> Outcomes(s),
+              allowed |-> IF ord = "" THEN Outcomes(s) ELSE OrderedOutcomes(s),
               mapAll |-> MustMapAll(s), deliverAll |-> MustDeliverAll(s),
               written |-> Written(s),
               late |-> HasLate(s),
@@ -28,5 +35,5 @@ CaseOf(s) == [api |-> s.api, n |-> s.n, workers |-> s.workers, mb |-> s.mb, rsto
                          ELSE IF s.mb[k - 1] \in {"cancelE", "cancelNil"} THEN ErrOf(s, k - 1) ELSE ""]]
 
 Emit == PrintT(ToJson(CaseOf(sc)))
-SaneInv == Sane(sc)
+SaneInv == Sane(sc) /\ (ord # "" => (OrderedOutcomes(sc) # {} /\ OrderedOutcomes(sc) \subseteq Outcomes(sc)))
 =============================================================================
